@@ -104,6 +104,7 @@ func init() {
 			case 0:
 				k := rapid.IntRange(0, len(frags)-1).Draw(t, "at")
 				cs.Templates[bn] = strings.Join(frags[:k], "") + rapid.SampledFrom([]string{"{{ ! }}", "{% frob %}", "{{ 1 +", "{% if %}", "{{ ( }}", "{{ 'x }}", "{# c",
+					"{{ 1 + }}{# c", "{% if %}{#- c", "{% frob %}{{ 'x", "{{ \"a#{ ^ }b\" }}", "{{ \"a#{ 'oops }b\" }} tail {{ x }}", "{{ f(\"#{ ! }\") }}",
 					"{% for 1 in x %}a{% endfor %}", "{{ x is 3 }}", "{% for v in x unless v %}b{% endfor %}", "{% for k, 'v' in x %}{% endfor %}", "{{ 1 is 'q' }} more {{ x }}"}).Draw(t, "junk") + strings.Join(frags[k:], "")
 			case 1:
 				cs.Templates[bn] = src[:rapid.IntRange(0, len(src)).Draw(t, "cut")]
